@@ -148,9 +148,9 @@ def mutators_between(f, guard_block, site_block, site_root, own_call_block=None)
             continue
         for a in t["a"]:
             e = op_expr(f, a)
-            if e[0] == "ref" or "&" in str(f.locals[a[1][0]] if a[0] in ("cp", "mv") else ""):
-                if root(e) == site_root:
-                    bad.append((b, cn))
+            # by reference or through a by-value view (`byte.integer_iter()` holds `&mut byte`)
+            if root(e) == site_root:
+                bad.append((b, cn))
     return bad
 
 
